@@ -565,7 +565,7 @@ func C09(seed uint64, run int) *spec.Spec {
 	sweep := ""
 	if g.wide && r.Chance(0.35) {
 		// sweep: consecutive days (months, years) through one kind of object, the way a calendar page is rendered
-		sweep = r.PickS([]string{"tao", "foto", "lunar", "ltime", "solar2lunar", "lyear", "lmonth", "tao", "foto", "eightchar"})
+		sweep = r.PickS([]string{"tao", "foto", "lunar", "ltime", "solar2lunar", "lyear", "lmonth", "tao", "foto", "eightchar", "lyear", "lyear"})
 	}
 	nUniv := r.Range(6, 18)
 	if g.focus != "" {
